@@ -1,5 +1,576 @@
-//! Conformance harness for specification-growth module g07 (see /verif/DESIGN.md 12.6).
+//! Conformance harness for the specification-growth module G07 (nested
+//! execution contexts: eval, dot, exec, return, exit, break, continue, EXIT
+//! trap); see spec/NestedExec.tla.
+//!
+//!   yv-g07 run    --in gen.ndjson --out verdicts.ndjson --mode sim|real [--variants V] [--every N] [--jobs J]
+//!       spec -> impl: every program printed by TLC (Gen_NestedExec) with the
+//!       outcome the specification prescribes is rendered to shell text and
+//!       files (seeded surface variation), executed and compared.
+//!   yv-g07 random --n N --size S --mode sim|real --out recs.ndjson --full recs.full.ndjson [--jobs J]
+//!       impl -> spec: seeded random larger programs are executed and recorded
+//!       for validation by spec/Trace_NestedExec.tla.
+//!   yv-g07 redo   --in replay.json
+//!       re-executes the program of a replay file and prints the observation.
+//!
+//! Every execution happens in a worker process supervised with a watchdog: a
+//! hang or a crash of the shell is recorded as data (outcome "timeout" /
+//! "crash"), never a harness failure.
+mod ast;
+mod exec;
+mod randgen;
+mod render;
+
+use ast::{Node, Tok};
+use exec::Obs;
+use rand::SeedableRng;
+use rand::rngs::StdRng;
+use render::{Mode, Renderer};
+use serde_json::{Value, json};
+use std::io::{BufRead, BufReader, Write};
+use std::process::{Command, Stdio};
+use std::sync::mpsc;
+use std::time::Duration;
+use yvcommon::util::{opt, opt_usize, seed};
+
+/// A worker that prints nothing for this long is considered hung on the
+/// program it announced (simulated runs take well under a millisecond of CPU;
+/// the margin is for a heavily loaded machine).
+const STALL_SIM: Duration = Duration::from_secs(20);
+/// Real-OS runs have their own per-run timeout (60 s) inside the worker.
+const STALL_REAL: Duration = Duration::from_secs(200);
+
+fn mix(a: u64, b: u64) -> u64 {
+    let mut x = a.wrapping_mul(0x9E37_79B9_7F4A_7C15).wrapping_add(b).wrapping_add(0x632B_E59B_D9B4_E019);
+    x ^= x >> 29;
+    x = x.wrapping_mul(0xBF58_476D_1CE4_E5B9);
+    x ^= x >> 32;
+    x
+}
+
+fn tr_json(tr: &[(i64, i64)]) -> Value {
+    Value::Array(tr.iter().map(|(m, s)| json!([m, s])).collect())
+}
+
+fn tr_of(v: &Value) -> Vec<(i64, i64)> {
+    v.as_array()
+        .map(|a| a.iter().map(|p| (p[0].as_i64().unwrap_or(0), p[1].as_i64().unwrap_or(0))).collect())
+        .unwrap_or_default()
+}
+
+fn execute(mode: Mode, r: &render::Rendered) -> Obs {
+    match mode {
+        Mode::Sim => exec::run_sim(r),
+        Mode::Real => exec::run_real_shell(r),
+    }
+}
+
+fn files_json(r: &render::Rendered) -> Value {
+    Value::Array(
+        r.files.iter().map(|(n, c, m)| json!({"name": n, "content": String::from_utf8_lossy(c), "mode": m})).collect(),
+    )
+}
+
+fn obs_json(o: &Obs) -> Value {
+    let shown = &o.tr[..o.tr.len().min(80)];
+    json!({"oc": o.oc, "st": o.st, "tr": tr_json(shown), "tr_len": o.tr.len(), "detail": o.detail})
+}
+
+// ---------------------------------------------------------------------------
+// workers
+// ---------------------------------------------------------------------------
+
+fn emit(line: &str) {
+    let out = std::io::stdout();
+    let mut l = out.lock();
+    let _ = l.write_all(line.as_bytes());
+    let _ = l.write_all(b"\n");
+    let _ = l.flush();
+}
+
+/// P2 worker: reads TLC's lines, handles those with index % parts == part and >= skip.
+fn worker_run(args: &[String]) -> i32 {
+    let mode = if opt(args, "--mode") == Some("real") { Mode::Real } else { Mode::Sim };
+    let variants = opt_usize(args, "--variants", 2);
+    let every = opt_usize(args, "--every", 1).max(1);
+    let part = opt_usize(args, "--part", 0);
+    let parts = opt_usize(args, "--parts", 1).max(1);
+    let skip = opt_usize(args, "--skip", 0);
+    let only = opt(args, "--only").and_then(|s| s.parse::<usize>().ok());
+    let path = opt(args, "--in").expect("--in");
+    let f = BufReader::new(std::fs::File::open(path).expect("open --in"));
+    let sd = seed();
+    for (idx, line) in f.lines().enumerate() {
+        let line = line.expect("read");
+        if let Some(o) = only {
+            if idx != o {
+                continue;
+            }
+        } else if idx % parts != part || idx < skip || (idx / parts) % every != 0 {
+            continue;
+        }
+        let v: Value = match serde_json::from_str(&line) {
+            Ok(v) => v,
+            Err(_) => continue,
+        };
+        let toks: Vec<Tok> = serde_json::from_value(v["p"].clone()).expect("tokens");
+        let Some(tree) = ast::parse(&toks) else {
+            emit(&format!("R {}", json!({"i": idx, "bad": "unparsable program"})));
+            continue;
+        };
+        emit(&format!("S {} {}", idx, json!({"i": idx, "p": v["p"]})));
+        let mut runs = 0;
+        let mut unspec = 0;
+        let mut div = 0;
+        let mut unsupported = 0;
+        let mut fails: Vec<Value> = vec![];
+        let mut sample = Value::Null;
+        // not renderable: the test bed's built-in `tick` on the real OS; a replaced process image on the simulated OS
+        let has_tick = tree.any(&|n| n.k == "tick");
+        let has_exec = tree.any(&|n| n.k == "exec" && n.s == "found");
+        let mut tags: Vec<String> = vec![];
+        let mut trap_markers: Vec<i64> = vec![0];
+        for (i, t) in toks.iter().enumerate() {
+            if t.k == "trap" {
+                trap_markers.push(i as i64 + 1);
+            }
+        }
+        for (oi, o) in v["o"].as_array().cloned().unwrap_or_default().iter().enumerate() {
+            match o["oc"].as_str().unwrap_or("") {
+                "ok" => {}
+                "unspec" => {
+                    unspec += 1;
+                    continue;
+                }
+                _ => {
+                    div += 1;
+                    continue;
+                }
+            }
+            if (mode == Mode::Real && has_tick) || (mode == Mode::Sim && has_exec) {
+                unsupported += 1;
+                continue;
+            }
+            let e = o["e"].as_i64().unwrap_or(0) != 0;
+            let t = o["t"].as_i64().unwrap_or(0);
+            let exp_tr = tr_of(&o["tr"]);
+            let exp_st = o["st"].as_i64().unwrap_or(0);
+            for tg in o["tg"].as_array().cloned().unwrap_or_default() {
+                if let Some(tg) = tg.as_str() {
+                    if !tags.iter().any(|x| x == tg) {
+                        tags.push(tg.to_string());
+                    }
+                }
+            }
+            for vi in 0..variants {
+                let s = mix(mix(mix(sd, idx as u64), oi as u64), vi as u64);
+                // the first variant is the plain rendering, the others vary the surface
+                let mut rd = Renderer::new(s, mode, vi > 0 || variants == 1 && idx % 2 == 1);
+                let rendered = rd.program(&tree, e, t);
+                let obs = execute(mode, &rendered);
+                runs += 1;
+                let verdict = exec::matches(&exp_tr, exp_st, &obs, &trap_markers);
+                if sample.is_null() && (idx % 97 == 0) {
+                    sample = json!({"text": rendered.script, "flags": rendered.flags, "files": files_json(&rendered),
+                                    "expected": {"tr": o["tr"], "st": exp_st}, "observed": obs_json(&obs)});
+                }
+                if let Err(why) = verdict {
+                    // does the difference disappear when the notable input variants are avoided?
+                    let mut feat = String::new();
+                    if !rendered.feats.is_empty() {
+                        let mut rd2 = Renderer::new(s, mode, vi > 0 || variants == 1 && idx % 2 == 1);
+                        rd2.avoid_blank_lines = true;
+                        let r2 = rd2.program(&tree, e, t);
+                        let obs2 = execute(mode, &r2);
+                        runs += 1;
+                        if exec::matches(&exp_tr, exp_st, &obs2, &trap_markers).is_ok() {
+                            feat = rendered.feats[0].to_string();
+                        }
+                    }
+                    if fails.len() < 2 {
+                        fails.push(json!({"feat": feat, "e": o["e"], "t": o["t"], "tg": o["tg"], "x": o["x"], "why": why, "text": rendered.script,
+                            "flags": rendered.flags, "stdin": rendered.via_stdin, "files": files_json(&rendered),
+                            "expected": {"tr": o["tr"], "st": exp_st}, "observed": obs_json(&obs)}));
+                    }
+                }
+            }
+        }
+        emit(&format!(
+            "R {}",
+            json!({"i": idx, "p": v["p"], "runs": runs, "unspec": unspec, "div": div, "unsupported": unsupported,
+                   "fails": fails, "sample": sample, "tags": tags})
+        ));
+    }
+    0
+}
+
+/// P3 worker: generates program i from the seed, executes it, records it.
+fn worker_random(args: &[String]) -> i32 {
+    let n = opt_usize(args, "--n", 100);
+    let size = opt_usize(args, "--size", 40);
+    let mode = if opt(args, "--mode") == Some("real") { Mode::Real } else { Mode::Sim };
+    let part = opt_usize(args, "--part", 0);
+    let parts = opt_usize(args, "--parts", 1).max(1);
+    let skip = opt_usize(args, "--skip", 0);
+    let only = opt(args, "--only").and_then(|s| s.parse::<usize>().ok());
+    // re-execution of selected programs, optionally avoiding the notable input variants
+    let indices: Option<Vec<usize>> = opt(args, "--indices").map(|s| s.split(',').filter_map(|x| x.parse().ok()).collect());
+    let avoid = opt_usize(args, "--avoid", 0) != 0;
+    let sd = seed();
+    for idx in 0..n {
+        if let Some(l) = &indices {
+            if !l.contains(&idx) {
+                continue;
+            }
+        }
+        if let Some(o) = only {
+            if idx != o {
+                continue;
+            }
+        } else if idx % parts != part || idx < skip {
+            continue;
+        }
+        let mut rng = StdRng::seed_from_u64(mix(mix(sd, 0x5eed), idx as u64));
+        use rand::Rng;
+        let sz = rng.gen_range(3..=size);
+        let tree0 = {
+            let mut g = randgen::Gen { rng: &mut rng, real: mode == Mode::Real };
+            g.program(sz)
+        };
+        let mut toks = vec![];
+        ast::flatten(&tree0, &mut toks);
+        let tree = ast::parse(&toks).expect("own program parses");
+        let e = rng.gen_bool(0.3);
+        let t: i64 = if rng.gen_bool(0.5) { 0 } else { rng.gen_range(1..=3) };
+        let mut rd = Renderer::new(mix(sd, idx as u64), mode, true);
+        rd.avoid_blank_lines = avoid;
+        let rendered = rd.program(&tree, e, t);
+        let head = json!({"i": idx, "p": toks, "e": e as i64, "t": t, "text": rendered.script, "feats": rendered.feats,
+                          "flags": rendered.flags, "stdin": rendered.via_stdin, "files": files_json(&rendered),
+                          "mode": if mode == Mode::Real { "real" } else { "sim" }});
+        emit(&format!("S {} {}", idx, head));
+        let obs = execute(mode, &rendered);
+        let mut rec = head;
+        rec["oc"] = json!(obs.oc);
+        // (an abandoned run may have recorded thousands of observations: keep a prefix)
+        let keep = if obs.oc == "completed" { obs.tr.len() } else { obs.tr.len().min(200) };
+        rec["tr"] = tr_json(&obs.tr[..keep]);
+        rec["st"] = json!(obs.st);
+        rec["detail"] = json!(obs.detail);
+        emit(&format!("R {rec}"));
+    }
+    0
+}
+
+// ---------------------------------------------------------------------------
+// supervisor
+// ---------------------------------------------------------------------------
+
+type Pending = Option<(usize, Value)>;
+
+/// One worker process to its end (or to a stall).  Result records are sent on
+/// `tx`; returns the item that was being executed when the worker was lost
+/// and why ("timeout" / "crash"), or (None, None) after a clean end.
+fn run_worker(
+    exe: &std::path::Path,
+    worker: &str,
+    args: &[String],
+    extra: &[String],
+    stall: Duration,
+    tx: &mpsc::Sender<Result<Value, String>>,
+) -> (Pending, Option<&'static str>, Option<usize>) {
+    let mut last_done: Option<usize> = None;
+    let mut child = match Command::new(exe)
+        .arg(worker)
+        .args(args)
+        .args(extra)
+        .stdin(Stdio::null())
+        .stdout(Stdio::piped())
+        .stderr(Stdio::null())
+        .spawn()
+    {
+        Ok(c) => c,
+        Err(e) => {
+            let _ = tx.send(Err(format!("cannot spawn worker: {e}")));
+            return (None, None, None);
+        }
+    };
+    let stdout = child.stdout.take().unwrap();
+    let (ltx, lrx) = mpsc::channel::<String>();
+    let reader = std::thread::spawn(move || {
+        for line in BufReader::new(stdout).lines().map_while(Result::ok) {
+            if ltx.send(line).is_err() {
+                break;
+            }
+        }
+    });
+    let mut pending: Pending = None;
+    let mut lost: Option<&'static str> = None;
+    loop {
+        match lrx.recv_timeout(stall) {
+            Ok(line) => {
+                if let Some(rest) = line.strip_prefix("S ") {
+                    let mut it = rest.splitn(2, ' ');
+                    let idx: usize = it.next().and_then(|s| s.parse().ok()).unwrap_or(0);
+                    let v: Value = it.next().and_then(|s| serde_json::from_str(s).ok()).unwrap_or(Value::Null);
+                    pending = Some((idx, v));
+                } else if let Some(rest) = line.strip_prefix("R ") {
+                    pending = None;
+                    match serde_json::from_str::<Value>(rest) {
+                        Ok(v) => {
+                            if let Some(i) = v["i"].as_u64() {
+                                last_done = Some(i as usize);
+                            }
+                            let _ = tx.send(Ok(v));
+                        }
+                        Err(e) => {
+                            let _ = tx.send(Err(format!("bad worker line: {e}")));
+                        }
+                    }
+                }
+            }
+            Err(mpsc::RecvTimeoutError::Timeout) => {
+                let _ = child.kill();
+                lost = Some("timeout");
+                break;
+            }
+            Err(mpsc::RecvTimeoutError::Disconnected) => break,
+        }
+    }
+    let status = child.wait();
+    let _ = reader.join();
+    let clean = matches!(&status, Ok(s) if s.success());
+    if lost.is_none() && !clean {
+        lost = Some("crash");
+    }
+    (pending, lost, last_done)
+}
+
+/// Runs `worker` (a sub-command of this binary) as child processes, `jobs` in
+/// parallel, each restarted after a stall or crash.  `on_result` receives
+/// every result record; `on_lost(pending, why)` builds the record for an item
+/// whose execution hung ("timeout") or killed the worker ("crash").
+fn supervise(worker: &str, args: &[String], jobs: usize, sink: &mut dyn FnMut(Value)) -> Result<(), String> {
+    let exe = std::env::current_exe().map_err(|e| e.to_string())?;
+    let stall = if opt(args, "--mode") == Some("real") { STALL_REAL } else { STALL_SIM };
+    let (tx, rx) = mpsc::channel::<Result<Value, String>>();
+    let mut handles = vec![];
+    for part in 0..jobs {
+        let tx = tx.clone();
+        let exe = exe.clone();
+        let args: Vec<String> = args.to_vec();
+        let worker = worker.to_string();
+        handles.push(std::thread::spawn(move || {
+            let mut skip = 0usize;
+            let mut restarts = 0;
+            let mut confirmed_hangs = 0;
+            let mut lost_items = 0;
+            loop {
+                let extra = vec!["--part".to_string(), part.to_string(), "--parts".into(), jobs.to_string(),
+                                 "--skip".into(), skip.to_string()];
+                let (pending, lost, last_done) = run_worker(&exe, &worker, &args, &extra, stall, &tx);
+                if let Some(d) = last_done {
+                    skip = skip.max(d + 1);
+                }
+                let Some(why) = lost else { return };
+                restarts += 1;
+                if restarts > 300 {
+                    let _ = tx.send(Err("too many worker restarts".into()));
+                    return;
+                }
+                match pending {
+                    Some((idx, mut v)) => {
+                        // A stall may be an overloaded machine: run the item once more, alone,
+                        // with a generous limit, before calling it a hang of the shell.
+                        let mut settled = false;
+                        if why == "timeout" && confirmed_hangs < 1 {
+                            let extra = vec!["--only".to_string(), idx.to_string()];
+                            let (p2, l2, _) = run_worker(&exe, &worker, &args, &extra, stall * 8, &tx);
+                            if l2.is_none() && p2.is_none() {
+                                settled = true; // its result record has been delivered
+                            } else {
+                                confirmed_hangs += 1;
+                            }
+                        }
+                        if !settled {
+                            v["lost"] = json!(why);
+                            let _ = tx.send(Ok(v));
+                            lost_items += 1;
+                            if lost_items >= 8 {
+                                // the shell hangs or crashes on many programs: enough evidence
+                                let _ = tx.send(Ok(json!({"note": format!(
+                                    "part {part}/{jobs} abandoned after {lost_items} hung/crashed executions")})));
+                                return;
+                            }
+                        }
+                        skip = skip.max(idx + 1);
+                    }
+                    None => {
+                        // lost between two items (start-up, end): nothing to attribute; go on
+                        // after the last item that was completed
+                        let _ = tx.send(Ok(json!({"note": format!("worker restarted ({why}) outside an execution")})));
+                        if restarts > 20 {
+                            let _ = tx.send(Err(format!("worker repeatedly lost ({why}) outside an execution")));
+                            return;
+                        }
+                    }
+                }
+            }
+        }));
+    }
+    drop(tx);
+    let mut err = None;
+    for m in rx {
+        match m {
+            Ok(v) => sink(v),
+            Err(e) => err = Some(e),
+        }
+    }
+    for h in handles {
+        let _ = h.join();
+    }
+    match err {
+        Some(e) => Err(e),
+        None => Ok(()),
+    }
+}
+
+fn passthrough(args: &[String]) -> Vec<String> {
+    // everything except --out/--full/--jobs
+    let mut out = vec![];
+    let mut i = 0;
+    while i < args.len() {
+        if matches!(args[i].as_str(), "--out" | "--full" | "--jobs") {
+            i += 2;
+            continue;
+        }
+        out.push(args[i].clone());
+        i += 1;
+    }
+    out
+}
+
+fn cmd_run(args: &[String]) -> i32 {
+    let jobs = opt_usize(args, "--jobs", 4).max(1);
+    let out_path = opt(args, "--out").expect("--out");
+    let mut out = std::io::BufWriter::new(std::fs::File::create(out_path).expect("create --out"));
+    let mut sink = |v: Value| {
+        let _ = writeln!(out, "{v}");
+    };
+    match supervise("worker-run", &passthrough(args), jobs, &mut sink) {
+        Ok(()) => 0,
+        Err(e) => {
+            eprintln!("yv-g07 run: {e}");
+            2
+        }
+    }
+}
+
+fn cmd_random(args: &[String]) -> i32 {
+    let jobs = opt_usize(args, "--jobs", 4).max(1);
+    let out_path = opt(args, "--out").expect("--out");
+    let full_path = opt(args, "--full").expect("--full");
+    let mut recs: Vec<Value> = vec![];
+    let mut sink = |v: Value| {
+        if v.get("note").is_none() {
+            recs.push(v)
+        }
+    };
+    if let Err(e) = supervise("worker-random", &passthrough(args), jobs, &mut sink) {
+        eprintln!("yv-g07 random: {e}");
+        return 2;
+    }
+    recs.sort_by_key(|v| v["i"].as_u64().unwrap_or(0));
+    let mut out = std::io::BufWriter::new(std::fs::File::create(out_path).expect("create --out"));
+    let mut full = std::io::BufWriter::new(std::fs::File::create(full_path).expect("create --full"));
+    for mut v in recs {
+        if let Some(why) = v.get("lost").and_then(|w| w.as_str()).map(|s| s.to_string()) {
+            v["oc"] = json!(why);
+            v["tr"] = json!([]);
+            v["st"] = json!(-1);
+        }
+        let _ = writeln!(full, "{v}");
+        let slim = json!({"p": v["p"], "e": v["e"], "t": v["t"], "oc": v["oc"], "tr": v["tr"], "st": v["st"]});
+        let _ = writeln!(out, "{slim}");
+    }
+    0
+}
+
+/// Re-executes one program: {"p": tokens, "e","t","y", optional "text","flags","stdin", "mode"}.
+fn cmd_redo(args: &[String]) -> i32 {
+    let path = opt(args, "--in").expect("--in");
+    let v: Value = serde_json::from_str(&std::fs::read_to_string(path).expect("read --in")).expect("json");
+    let mode = if v["mode"] == "real" { Mode::Real } else { Mode::Sim };
+    let rendered = if let Some(text) = v.get("text").and_then(|t| t.as_str()) {
+        render::Rendered {
+            script: text.to_string(),
+            flags: v["flags"].as_array().map(|a| a.iter().filter_map(|f| f.as_str().map(String::from)).collect()).unwrap_or_default(),
+            via_stdin: v["stdin"].as_bool().unwrap_or(false),
+            feats: vec![],
+            files: v["files"]
+                .as_array()
+                .map(|a| {
+                    a.iter()
+                        .map(|f| {
+                            (f["name"].as_str().unwrap_or("").to_string(), f["content"].as_str().unwrap_or("").as_bytes().to_vec(),
+                             f["mode"].as_u64().unwrap_or(0o644) as u32)
+                        })
+                        .collect()
+                })
+                .unwrap_or_default(),
+        }
+    } else {
+        let toks: Vec<Tok> = serde_json::from_value(v["p"].clone()).expect("tokens");
+        let tree: Node = ast::parse(&toks).expect("program");
+        let mut rd = Renderer::new(1, mode, false);
+        rd.program(&tree, v["e"].as_i64().unwrap_or(0) != 0, v["t"].as_i64().unwrap_or(0))
+    };
+    let obs = execute(mode, &rendered);
+    println!("{}", json!({"text": rendered.script, "flags": rendered.flags, "files": files_json(&rendered), "observed": obs_json(&obs)}));
+    0
+}
+
+/// Debug aid: prints the renderings of the programs of a TLC output file.
+fn cmd_render(args: &[String]) -> i32 {
+    let path = opt(args, "--in").expect("--in");
+    let vary = opt_usize(args, "--vary", 0) != 0;
+    let f = BufReader::new(std::fs::File::open(path).expect("open"));
+    for (idx, line) in f.lines().enumerate() {
+        let v: Value = serde_json::from_str(&line.unwrap()).unwrap();
+        let toks: Vec<Tok> = serde_json::from_value(v["p"].clone()).unwrap();
+        let tree = ast::parse(&toks).unwrap();
+        let mut rd = Renderer::new(idx as u64, Mode::Sim, vary);
+        let r = rd.program(&tree, false, 0);
+        println!("{}", json!({"i": idx, "text": r.script, "files": files_json(&r), "o": v["o"]}));
+    }
+    0
+}
+
 fn main() {
-    eprintln!("yv-g07: not implemented yet");
-    std::process::exit(2);
+    yvcommon::real::maybe_child_main();
+    let args: Vec<String> = std::env::args().collect();
+    if args.len() < 2 {
+        eprintln!("usage: yv-g07 <run|random|redo|render> ...");
+        std::process::exit(2);
+    }
+    let rest = &args[2..];
+    exec::TICK_LIMIT.store(opt_usize(rest, "--tick", 2) as i64, std::sync::atomic::Ordering::Relaxed);
+    let code = match args[1].as_str() {
+        "run" => cmd_run(rest),
+        "random" => cmd_random(rest),
+        "redo" => cmd_redo(rest),
+        "render" => cmd_render(rest),
+        "worker-run" => {
+            yvcommon::util::quiet_panics();
+            worker_run(rest)
+        }
+        "worker-random" => {
+            yvcommon::util::quiet_panics();
+            worker_random(rest)
+        }
+        other => {
+            eprintln!("unknown subcommand {other}");
+            2
+        }
+    };
+    std::process::exit(code);
 }
